@@ -302,7 +302,7 @@ Proof.
   rewrite forallb_app in Hnte. apply andb_true_iff in Hnte as [HnB Hnrc].
   simpl in Hnrc. apply andb_true_iff in Hnrc as [Hnr Hnc]. rewrite andb_true_r in Hnc.
   (* the library side *)
-  unfold getitem_model. fold nd. replace (nd <? 2) with false by (symmetry; apply Nat.ltb_ge; lia).
+  unfold getitem_model, getitem_front. fold nd. replace (nd <? 2) with false by (symmetry; apply Nat.ltb_ge; lia).
   rewrite Hexp. fold batch row col.
   rewrite (basic_existsb batch HbB).
   assert (Er : is_tensor row = false) by (unfold basic in Hbr; apply negb_true_iff in Hbr; exact Hbr).
@@ -369,7 +369,7 @@ Theorem getitem_pinned_basic_partial : forall t idx index r,
 Proof.
   intros t idx index r Hnd Hexp Hbasic Hr Hc Hspec.
   rewrite <- (getitem_fixed_basic t idx index r Hnd Hexp Hbasic Hspec).
-  unfold getitem_model. set (nd := length (tshape t)) in *.
+  unfold getitem_model, getitem_front. set (nd := length (tshape t)) in *.
   destruct (nd <? 2); [reflexivity|]. rewrite Hexp.
   set (batch := firstn (nd - 2) index). set (row := nth (nd - 2) index full) in *. set (col := nth (nd - 1) index full) in *.
   assert (HbB : forallb basic batch = true).
